@@ -52,9 +52,15 @@ def gen_unit(rng):
     elif mode == "cache":
         hist = []
         pats = rng.sample(PATTERNS, rng.choice((1, 2, 3)))
+        collide = None
+        if rng.random() < 0.15:
+            # two different patterns that common 32-bit string hashes cannot tell apart (FNV-1a, FNV-1, the 31-multiplier hash):
+            # a cache may hash its keys, it may not confuse them
+            collide = rng.choice((("mcfpmlno", "ikxnxfbz"), ("costarring", "liquid"), ("declinate", "macallums"), ("altarage", "zinke"), ("Aa", "BB"), ("AaAa", "BBBB"), ("AaBB", "BBAa")))
+            pats = list(collide)
         for _ in range(rng.choice((2, 5, 12, 40)) if not any(p in HEAVY for p in pats) else rng.choice((2, 3, 5))):
             hist.append({"s": rng.choice(eg.WORDS + eg.NONASCII + ["hello", "hellllo", "abc", "123", "0123456789abcdef0123456789abcdef", "id=" + "x" * 40 + ";",
-                                                                   "555-1234", "HÉLLO", "z" * 120]), "p": rng.choice(pats)})
+                                                                   "555-1234", "HÉLLO", "z" * 120] + (list(collide) * 6 if collide else [])), "p": rng.choice(pats)})
         u["input"] = "\n".join(jm.dumps(v) for v in hist).encode()
         u["npatterns"] = len(pats)
     else:
